@@ -191,3 +191,50 @@ func poolContentScenario(c *Ctx, lock *sync.Mutex) {
 	c.Emit("content %d %d %d %d %d | ok", limit, nU, nC, total, calls)
 	c.Hit(fmt.Sprintf("content-limit-%s", map[bool]string{true: "real", false: "lowered"}[limit == orig]))
 }
+
+// poolBatchDisplaced (pool-batch, counted observation): a pooled contract receive with k >= 1 descendant blocks loses its
+// place to a competing receive for the same height (another pillar's view of the contract's inbox, force-inserted by sync).
+// Judged: the pool's chain afterwards is the competitor on the confirmed block, and the displaced RECEIVE no longer answers
+// GetPatch. Counted only (stats key batch-displaced-descendant-still-answers): on the current tree memdbManager.Pop forgets
+// the head of a multi-block transaction but keeps the version and the (empty) patch of its descendant blocks, so
+// GetPatch / GetAccountStore still answer for the displaced ContractSend blocks; no caller is known to act on it (sync and
+// gossip skip ContractSend blocks before asking), hence an observation in the evidence, not a failure.
+func poolBatchDisplaced(c *Ctx, lock *sync.Mutex) {
+	st := &poolStable{dbs: map[types.Address]db.DB{}}
+	p := chain.NewAccountPool(st)
+	addr := idxAddress(12, 1)
+	g0 := &nom.AccountBlock{Address: addr, Height: 1, Hash: h4(c), BlockType: nom.BlockTypeContractReceive}
+	setConfirmed(st, addr, g0)
+	k := 1 + c.R.Intn(3)
+	prev := g0.Hash
+	desc := make([]*nom.AccountBlock, k)
+	for i := range desc {
+		desc[i] = &nom.AccountBlock{Address: addr, Height: 2 + uint64(i), PreviousHash: prev, Hash: h4(c), BlockType: nom.BlockTypeContractSend}
+		prev = desc[i].Hash
+	}
+	recv := &nom.AccountBlock{Address: addr, Height: 2 + uint64(k), PreviousHash: prev, Hash: h4(c), BlockType: nom.BlockTypeContractReceive, DescendantBlocks: desc}
+	rival := &nom.AccountBlock{Address: addr, Height: 2, PreviousHash: g0.Hash, Hash: h4(c), BlockType: nom.BlockTypeContractReceive}
+	r1 := guard(func() string {
+		return poolErr(p.AddAccountBlockTransaction(lock, &nom.AccountBlockTransaction{Block: recv, Changes: db.NewPatch()}))
+	})
+	r2 := guard(func() string {
+		return poolErr(p.ForceAddAccountBlockTransaction(lock, &nom.AccountBlockTransaction{Block: rival, Changes: db.NewPatch()}))
+	})
+	unc := p.GetUncommittedAccountBlocksByAddress(addr)
+	c.Emit("batch-displaced %d | %s %s %d", k, r1, r2, len(unc))
+	if r1 != "ok" || r2 != "ok" || len(unc) != 1 || unc[0].Hash != rival.Hash {
+		c.Fail("pool batch: a pooled receive with %d descendants displaced by a force-inserted competitor for height 2: results %s / %s, the pool lists %d uncommitted blocks, expected the competitor alone", k, r1, r2, len(unc))
+		return
+	}
+	if p.GetPatch(addr, recv.Identifier()) != nil {
+		c.Fail("pool batch: GetPatch still answers for a contract receive (with %d descendants) that was displaced by a force-inserted competitor", k)
+		return
+	}
+	for _, d := range desc {
+		if p.GetPatch(addr, d.Identifier()) != nil || p.GetAccountStore(addr, d.Identifier()) != nil {
+			c.Hit("batch-displaced-descendant-still-answers")
+			return
+		}
+	}
+	c.Hit("batch-displaced-clean")
+}
